@@ -36,3 +36,24 @@ fn l4_interrupted_then_solve() {
     let text2 = "#[auto] trait Send {} struct NotSend {} impl !Send for NotSend {} struct Ptr<T> {} impl<T> Send for Ptr<T> where T: Send {} struct Outer { bad: NotSend, inner: Inner } struct Inner { outer: Ptr<Outer> }";
     run(text2, &["Outer: Send", "Inner: Send"], SolverChoice::recursive_default());
 }
+
+#[test]
+fn l5_stop_once() {
+    std::panic::set_hook(Box::new(|_| {}));
+    let text = "trait Marker {} trait First {} trait Second {} struct Leaf {} impl First for Leaf {} impl Second for Leaf where Leaf: First {}";
+    for choice in [SolverChoice::recursive_default(), SolverChoice::slg_default()] {
+        let db = ChalkDatabase::with(text, choice.clone());
+        let program = db.checked_program().unwrap();
+        let mut out = vec![];
+        for g in ["Leaf: Marker", "Leaf: Second", "Leaf: First, Leaf: Marker"] {
+            let p = db.parse_and_lower_goal(g).unwrap().into_peeled_goal(I);
+            for k in 1..8usize {
+                let mut solver = choice.clone().into_solver();
+                let n = Cell::new(0usize);
+                let r = std::panic::catch_unwind(std::panic::AssertUnwindSafe(|| chalk_integration::tls::set_current_program(&program, || solver.solve_limited(&db, &p, &|| { n.set(n.get() + 1); n.get() != k }).map(|s| format!("{}", s.display(I))))));
+                match r { Err(_) => out.push(format!("{} k={} PANIC", g, k)), Ok(v) => out.push(format!("{} k={} {:?}", g, k, v)) }
+            }
+        }
+        println!("L5 {:?}: {:?}", choice, out);
+    }
+}
